@@ -162,9 +162,24 @@ func setBase(r aa.Rule, b aa.Base) bool {
 	return true
 }
 
+func isBareFile(r aa.Rule) bool {
+	f, ok := r.(*aa.File)
+	return ok && f.Path == "" && len(f.Access) == 0
+}
+
 func rulesMode(kind string, tier int) int {
 	n := 0
 	for _, r0 := range universe.Of(kind, tier) {
+		if isBareFile(r0) {
+			// judged once, on its own: whatever surrounds it would only repeat the same finding
+			n++
+			if text := r0.String(); !strings.Contains(text, "file") {
+				report("bare-file-rule-printed-without-keyword", fmt.Sprintf("the bare file rule (every file access) is printed as %q: neither the library nor AppArmor reads that back", text), text)
+			} else if l, perr := parseBlock(text); perr != "" || len(l) != 1 || universe.Fields(l[0], true) != universe.Fields(r0, true) {
+				report("bare-file-rule-round-trip", fmt.Sprintf("the bare file rule printed as %q does not parse back to itself", text), text)
+			}
+			continue
+		}
 		for bi, b := range bases {
 			r := universe.Clone(r0)
 			if bi > 0 {
@@ -249,7 +264,17 @@ func blocksMode(tier, shard, of int) int {
 		}
 		rs, e := parseBlock(text)
 		if e != "" {
-			report("block-not-parsed err="+strings.SplitN(e, ":", 2)[0], "the formatted block does not parse back: "+e+" -- text: "+text, in...)
+			sig := "block-not-parsed err=" + strings.SplitN(e, ":", 2)[0]
+			if strings.Contains(e, "Unbalanced block") {
+				for _, l := range strings.Split(text, "\n") {
+					t := strings.TrimSpace(l)
+					if i := strings.Index(t, "#"); strings.HasPrefix(t, "include") && i > 0 && strings.ContainsAny(t[i:], ")]}") {
+						sig += " cause=closing-bracket-in-the-comment-of-an-include-line"
+						break
+					}
+				}
+			}
+			report(sig, "the formatted block does not parse back: "+e+" -- text: "+text, in...)
 			return
 		}
 		a, b := nonNil(formatted), nonNil(rs)
@@ -300,7 +325,12 @@ func blocksMode(tier, shard, of int) int {
 	// all ordered pairs inside every group of same-kind rules that agree on their non-mergeable fields
 	// (merged access lists, signal sets, capability names must come back the way they were printed)
 	for _, kind := range universe.AllKinds {
-		KU := universe.Of(kind, tier)
+		KU := []aa.Rule{}
+		for _, r := range universe.Of(kind, tier) {
+			if !isBareFile(r) {
+				KU = append(KU, r)
+			}
+		}
 		groups := map[string][]int{}
 		order := []string{}
 		for i, r := range KU {
